@@ -77,16 +77,6 @@ theorem C08_inv (selfId : Bytes) (routers : List Addr) (ops : List TOp) :
     obtain ⟨h2, e2⟩ := ih _ h1
     exact ⟨h2, sameEnv_trans e1 e2⟩
 
-theorem commonPrefix_self (l : List Bool) : commonPrefix l l = l.length := by
-  induction l with
-  | nil => rfl
-  | cons a l ih => simp [commonPrefix, ih]
-
-theorem idBits_length (id : Bytes) : (idBits id).length = 8 * id.length := by
-  induction id with
-  | nil => rfl
-  | cons b bs ih => simp [idBits, List.flatMap_cons, byteBits] at ih ⊢; omega
-
 theorem status_live_answered (n : Node) (now : Nat) (h : n.status now ≠ .bad) : n.lastResponse ≠ none := by
   intro hn; apply h; simp [Node.status, hn]
 
